@@ -167,6 +167,8 @@ def run(ctx, rep):
     rule_funnel(ctx, rep)
     rule_destroy(ctx, rep)
     rule_moves(ctx, rep)
+    balance.rule_writeback(ctx, rep)
+    rep.floor("R-WRITEBACK", 1, "OffsetArc::make_mut")
     rep.floor("R-BAL", 150, "API bodies (default configuration has 170+)")
     for tag, F, E in ctx.each():
         if E.unmodelled:
